@@ -55,10 +55,11 @@ def verdict (ws : List String) (out : List String) : Option Bool :=
   | ["uid.parse", s] => do
     let s ← decChars s
     match out with
-    | [v, _] => do
+    | [v, w] => do
       let v ← decNat v
-      -- any text that is not the canonical encoding of an id decodes to 0
-      pure (v == 0 || toText v == s)
+      let w ← decNat w
+      -- any text that is not the canonical encoding of an id decodes to 0: the bare form, and the form with the `usr` prefix
+      pure ((v == 0 || toText v == s) && (w == 0 || userId w == s))
     | _ => pure false
   | ["uid.p2p", a, b] => do
     let a ← decNat a; let b ← decNat b
